@@ -276,6 +276,14 @@ func genSiblingPair(r *Rng) (string, string, int, int) {
 				"JSON_AGG(v)", "CUME_DIST()", "PERCENT_RANK()", "LEAD(s, 2)", "LAG(s, 2, 'x')", "MAX(v)", "LEAD(v, 1, 0)", "LAST_VALUE(v) IGNORE NULLS", "FIRST_VALUE(v) IGNORE NULLS", "MIN(s)", "AVG(v)", "MEDIAN(v)")
 		}
 		a, b := fa(), fa()
+		if r.Bool(0.35) {
+			// a plain query against the same query with an analytic column whose window is ordered by the
+			// column the statement itself is ordered by (in the other direction): the statement's own ORDER BY
+			// is applied whatever the window left behind
+			col := r.PickS("s", "v", "id", "g")
+			return fmt.Sprintf("SELECT id, %s FROM a ORDER BY %s DESC, id DESC;", col, col),
+				fmt.Sprintf("SELECT id, %s, %s OVER (ORDER BY %s) AS wa FROM a ORDER BY %s DESC, id DESC;", col, r.PickS("RANK()", "ROW_NUMBER()", "DENSE_RANK()", "LAG(id)", "COUNT(*)", "FIRST_VALUE(id)"), col, col), 2, 0
+		}
 		base := fmt.Sprintf("SELECT id, %s OVER (%s) AS wa FROM a ORDER BY id;", a, win)
 		if r.Bool(0.5) {
 			return base, fmt.Sprintf("SELECT id, %s OVER (%s) AS wa, %s OVER (%s) AS wb FROM a ORDER BY id;", a, win, b, win), 2, 0
@@ -560,6 +568,11 @@ func (c14) Gen(seed uint64, tier string) *Scenario {
 		cpu = r.Pick(2, 3, 4, 8)
 	}
 	sc.Procs = []ProcSpec{{CPU: cpu, WaitTimeoutS: 10.0000001, RetryDelayNs: 10001009, Quiet: true, Format: "CSV", Flags: swarmFlags(Sub(seed, "c14-flags"), 0.25, true)}}
+	if rs := Sub(seed, "c14-strict"); rs.Bool(0.2) {
+		// (comparison keys are serialised under strict equality: another code path of every sort, group and
+		// DISTINCT; all runs that are compared with each other use the same flags)
+		sc.Procs[0].Flags = mergeFlags(sc.Procs[0].Flags, map[string]string{"STRICT_EQUAL": "true"})
+	}
 	renderC14(sc, m)
 	if big {
 		sc.Knobs = Knobs{RowStride: 64, MinPerCore: r.Pick(0, 20)}
